@@ -19,6 +19,7 @@ import (
 	"net/http"
 	"os"
 	"path/filepath"
+	"strings"
 	"sync"
 	"time"
 
@@ -37,6 +38,8 @@ type HitSpec struct {
 	Body    string `json:"body"`  // body spec (see parseBodySpec) or "rnd:<seed>:<n>"
 	Gzip    bool   `json:"gzip"`
 	Chunked bool   `json:"chunked"`
+	// further response headers, "Key: value" (Server and the other headers CDNs add and discard hooks look at)
+	Hdrs []string `json:"hdrs,omitempty"`
 }
 
 type ResSpec struct {
@@ -71,6 +74,7 @@ type HitLog struct {
 	Len    int64  `json:"len"`
 	Gzip   bool   `json:"gzip"`
 	Chunk  bool   `json:"chunked"`
+	Server string `json:"server,omitempty"` // Server header sent, "" = none
 }
 
 type ItemOut struct {
@@ -148,6 +152,11 @@ func (o *wOrigin) ServeHTTP(w http.ResponseWriter, req *http.Request) {
 		h = hits[att-1]
 	}
 	lg := HitLog{Kind: h.Kind, Status: h.Status, CF: h.CF, Gzip: h.Gzip, Chunk: h.Chunked}
+	for _, kv := range h.Hdrs {
+		if k, v, ok := strings.Cut(kv, ": "); ok && strings.EqualFold(k, "server") {
+			lg.Server = v
+		}
+	}
 	record := func() {
 		o.mu.Lock()
 		o.log[p] = append(o.log[p], lg)
@@ -187,6 +196,11 @@ func (o *wOrigin) ServeHTTP(w http.ResponseWriter, req *http.Request) {
 	}
 	if h.CF != "" {
 		w.Header().Set("cf-mitigated", h.CF)
+	}
+	for _, kv := range h.Hdrs {
+		if k, v, ok := strings.Cut(kv, ": "); ok {
+			w.Header().Set(k, v)
+		}
 	}
 	if h.Status >= 300 && h.Status < 400 && h.Status != 304 {
 		w.Header().Set("Location", "/elsewhere")
@@ -400,9 +414,21 @@ loop:
 	}
 	snap.update(!res.TimedOut)
 	known := map[string]bool{}
+	// entity SHA-1s (computed from the stored blocks) of the response records under each URI
+	storedResp := map[string][]string{}
+	for _, q := range snap.all() {
+		if q.Type == "response" {
+			storedResp[q.URI] = append(storedResp[q.URI], q.SHA)
+		}
+	}
 	for _, t := range all {
 		known[uriOf(t.res)] = true
 		t.out.AtEnd = recsOf(t.res)
+		for i := range t.out.AtEnd {
+			if t.out.AtEnd[i].Type == "revisit" {
+				t.out.AtEnd[i].Refs = storedResp[t.out.AtEnd[i].RefersURI]
+			}
+		}
 		org.mu.Lock()
 		t.out.Hits = org.log[sp.Resources[t.res].Path]
 		org.mu.Unlock()
